@@ -167,7 +167,11 @@ impl<F: Float> Transformer<Kernel<F>, DatasetBase<Kernel<F>, Vec<usize>>>
             ct += 1;
         }
 
-        // flatten resulting clusters and reverse index
+        // flatten resulting clusters and reverse index; clusters are numbered in the order of
+        // their dendrogram ids, the iteration order of the hash map is random
+        let mut clusters = clusters.into_iter().collect::<Vec<_>>();
+        clusters.sort_unstable_by_key(|(key, _)| *key);
+
         let mut tmp = vec![0; num_observations];
         for (i, (_, ids)) in clusters.into_iter().enumerate() {
             for id in ids {
